@@ -23,10 +23,48 @@ package cs
 //@   props C06
 //@   requires s != nil && r != nil && coeffOK(s) && termOK(s, t)
 //@   nopanic
+//@   assigns *r
 //@   ensures @accumulated *r == fadd(old(*r), old(termVal(s, t)))
 
 //@ contract (*solver).divByCoeff
 //@   props C06
 //@   requires solver != nil && res != nil && coeffOK(solver) && int(cID) < len(solver.Coefficients)
 //@   panics-only-if cID == 0
+//@   assigns *res
 //@   ensures @divided cID != 0 ==> fmul(*res, old(solver.Coefficients[cID])) == old(*res)
+
+// ---- one rank-1 row. a, b, c are the row's entries of the three evaluation vectors the Groth16 prover reads.
+// rowOK: every term of the row refers to a coefficient and a wire the solver has (R1C rows carry no
+// constant-marker terms: the ONE wire is wire 0).
+//@ spec func leOK(s *solver, l LinearExpression) bool = forall k int :: 0 <= k && k < len(l) ==> int(l[k].CID) < len(s.Coefficients) && int(l[k].VID) < len(s.values) && int(l[k].VID) < len(s.solved)
+//@ contract (*solver).wrapErrWithDebugInfo
+//@   trusted "formats the debug information of the constraint; the result is a non-nil error"
+//@   pure
+//@   ensures result != nil
+//@ contract (*solver).set
+//@   trusted "values[id] = value, solved[id] = true, atomic counter increment (panics on a wire that is already solved)"
+//@   assigns s.nbSolved, s.values[id], s.solved[id]
+//@   ensures s.values[id] == value && s.solved[id]
+// the closure that walks one linear expression: it only ever sets loc to its own tag, and the term it
+// remembers is one of the row
+//@ spec func sepOK(s *solver) bool = alloc(s.a) != alloc(s.b) && alloc(s.a) != alloc(s.c) && alloc(s.b) != alloc(s.c) && alloc(s.a) != alloc(s.Coefficients) && alloc(s.b) != alloc(s.Coefficients) && alloc(s.c) != alloc(s.Coefficients) && alloc(s.a) != alloc(s.values) && alloc(s.b) != alloc(s.values) && alloc(s.c) != alloc(s.values) && alloc(s.values) != alloc(s.Coefficients)
+//@ contract (*solver).solveR1C$1
+//@   inline
+//@   loop 1 invariant @loc loc == 0 || loc == 1 || loc == 2 || loc == 3
+//@   loop 1 invariant @kept-c coeffOK(solver)
+//@   loop 1 invariant @kept-l leOK(solver, l)
+//@   loop 1 invariant @kept-s sepOK(solver)
+//@   loop 1 invariant @term loc != 0 ==> int(termToCompute.CID) < len(solver.Coefficients) && int(termToCompute.VID) < len(solver.values) && int(termToCompute.VID) < len(solver.solved)
+//@ contract (*solver).solveR1C
+//@   props C06
+//@   requires solver != nil && r != nil && coeffOK(solver) && int(cID) < len(solver.a) && int(cID) < len(solver.b) && int(cID) < len(solver.c)
+//@   requires leOK(solver, r.L) && leOK(solver, r.R) && leOK(solver, r.O)
+//   the evaluation vectors, the wire values and the coefficient table are separate arrays
+//@   requires sepOK(solver) && allocated(solver.Coefficients) && allocated(solver.values) && allocated(solver.solved)
+//   (x / y) * y = x for a non-zero y, instantiated for the two divisions of the function (stated with `result` so that it is read in the final state)
+//@   lemma @div-b result == nil && solver.b[cID] != f0 ==> fmul(fmul(solver.c[cID], finv(solver.b[cID])), solver.b[cID]) == solver.c[cID]
+//@   lemma @div-a result == nil && solver.a[cID] != f0 ==> fmul(solver.a[cID], fmul(solver.c[cID], finv(solver.a[cID]))) == solver.c[cID]
+//   success: the row holds on the entries handed to the prover
+//@   ensures @row-holds result == nil ==> fmul(solver.a[cID], solver.b[cID]) == solver.c[cID]
+//   failure: the row is violated (with a zero factor on the other side no value of the open wire repairs it)
+//@   ensures @fails-only-if-violated result != nil ==> fmul(solver.a[cID], solver.b[cID]) != solver.c[cID]
